@@ -73,3 +73,35 @@ func VerifHarness_RelayAcrossThresholds() {
 	zz.Assert(err != nil, "the receiver got a payload that was never sent")
 	zz.Reach("relayed")
 }
+
+// Payload sizes at the boundaries of the VarInt that announces the uncompressed size (127/128 and
+// 16383/16384), relayed with compression on or off on the outgoing side: the frame length the proxy
+// writes matches the frame, so the receiver reads exactly the payload and nothing of the next frame.
+func VerifHarness_RelayBoundarySizes() {
+	zzInstallZlibModel()
+	sizes := []int{126, 127, 128, 129, 16382, 16383, 16384, 16385}
+	n := sizes[zz.Choose(len(sizes))]
+	payload := make([]byte, n)
+	payload[0], payload[n/2], payload[n-1] = zz.Byte(), zz.Byte(), zz.Byte()
+	threshold := []int{-1, 0, 64, 20000}[zz.Choose(4)]
+	var wire bytes.Buffer
+	enc := NewEncoder(&wire, proto.ClientBound, logr.Discard())
+	if threshold >= 0 {
+		zz.Assert(enc.SetCompression(threshold, -1) == nil, "compression could not be enabled")
+	}
+	marker := []byte{0x7e, 0x01}
+	_, err := enc.Write(payload)
+	zz.Assert(err == nil, "the proxy could not frame a relayed payload")
+	_, err = enc.Write(marker)
+	zz.Assert(err == nil, "the proxy could not frame the next payload")
+	rcv := NewDecoder(bytes.NewReader(wire.Bytes()), proto.ClientBound, logr.Discard())
+	if threshold >= 0 {
+		rcv.SetCompressionThreshold(threshold)
+	}
+	got, _, err := rcv.readPayload()
+	zz.Assert(err == nil, "the receiver cannot read a relayed frame of a boundary size")
+	zz.Assert(len(got) == n && got[0] == payload[0] && got[n/2] == payload[n/2] && got[n-1] == payload[n-1], "a relayed payload of a boundary size is not byte-identical")
+	next, _, err := rcv.readPayload()
+	zz.Assert(err == nil && bytes.Equal(next, marker), "the frame after a boundary-size payload is corrupted (the announced frame length was wrong)")
+	zz.Reach("boundary")
+}
